@@ -374,6 +374,56 @@ def set_address_standby(rng):
     return fails, {'scenario': 'set_address_standby', 'multi': multi}
 
 
+def stop_sending_while_streaming(rng):
+    """stop_sending() from another thread while the worker of a started layer streams Consecutive Frames paced by STmin: the request is
+    aborted - the caller blocked in send() gets BlockingSendFailure and the rest of the message is not emitted"""
+    import queue
+    out_frames = []
+    qin = queue.Queue()
+
+    def rxfn(timeout):
+        try:
+            return qin.get(timeout=timeout) if timeout else qin.get_nowait()
+        except queue.Empty:
+            return None
+
+    def txfn(m):
+        out_frames.append(bytes(m.data))
+        if bytes(m.data)[0] >> 4 == 1:
+            qin.put(isotp.CanMessage(arbitration_id=0x222, data=bytes([0x30, 0, 20])))       # everything granted, 20 ms apart
+    a = isotp.Address(isotp.AddressingMode.Normal_11bits, txid=0x111, rxid=0x222)
+    L = isotp.TransportLayer(rxfn=rxfn, txfn=txfn, address=a, params={'blocking_send': True}, read_timeout=0.02)
+    fails = []
+    res = {}
+
+    def caller():
+        try:
+            L.send(bytes(range(150)), send_timeout=5.0)
+            res['out'] = 'ok'
+        except isotp.BlockingSendFailure:
+            res['out'] = 'failure'
+        except isotp.BlockingSendTimeout:
+            res['out'] = 'timeout'
+        except Exception as e:
+            res['out'] = type(e).__name__
+    try:
+        L.start()
+        t = threading.Thread(target=caller, daemon=True)
+        t.start()
+        t0 = _time.time()
+        while _time.time() - t0 < 2.0 and sum(1 for d in out_frames if d[0] >> 4 == 2) < 3:
+            _time.sleep(0.005)
+        L.stop_sending()
+        t.join(2.0)
+        _time.sleep(0.1)
+        ncf = sum(1 for d in out_frames if d[0] >> 4 == 2)
+        if t.is_alive() or res.get('out') != 'failure' or ncf >= 21:
+            fails.append(('abort-ignored', 'stop_sending() during the streaming of Consecutive Frames: send() outcome %s (still blocked: %s), %d of 21 Consecutive Frames emitted' % (res.get('out'), t.is_alive(), ncf)))
+    finally:
+        L.stop()
+    return fails, {'scenario': 'stop_sending_while_streaming'}
+
+
 # ---------------------------------------------------------------- C13
 def send_before_start(rng):
     """payloads handed to send() before start() (or while start() is still bringing the threads up) are transmitted once the layer runs"""
@@ -850,10 +900,10 @@ def failed_kernel_bind(rng):
 
 SCENARIOS = {
     'C01': [reload_midstream], 'C04': [reload_midstream, txfn_raises], 'C02': [tuple_iterable], 'C17': [tuple_iterable], 'C03': [blocked_recv, fc_not_throttled, idle_stop_receiving_threaded, very_long_reception], 'C06': [fc_not_throttled],
-    'C05': [clear_midreception], 'C07': [retimed, legacy_rx_deadline], 'C08': [slow_generator, stmin_raised_under_limiter], 'C10': [positional_process, very_long_reception], 'C12': [set_address_standby],
+    'C05': [clear_midreception], 'C07': [retimed, legacy_rx_deadline], 'C08': [slow_generator, stmin_raised_under_limiter], 'C10': [positional_process, very_long_reception], 'C12': [set_address_standby, stop_sending_while_streaming],
     'C13': [send_before_start], 'C14': [legacy_sleep_timing, stop_with_backlog], 'C11': [threaded_receiver_times_out], 'C15': [bystander_layer, slow_txfn], 'C19': [failed_kernel_bind], 'C20': [failed_kernel_bind],
 }
-REPS = {'very_long_reception': 1, 'stop_with_backlog': 1, 'threaded_receiver_times_out': 2, 'idle_stop_receiving_threaded': 2, 'failed_kernel_bind': 6, 'blocked_recv': 4, 'send_before_start': 3, 'legacy_sleep_timing': 1, 'positional_process': 1}
+REPS = {'stop_sending_while_streaming': 2, 'very_long_reception': 1, 'stop_with_backlog': 1, 'threaded_receiver_times_out': 2, 'idle_stop_receiving_threaded': 2, 'failed_kernel_bind': 6, 'blocked_recv': 4, 'send_before_start': 3, 'legacy_sleep_timing': 1, 'positional_process': 1}
 TEXT = {f.__name__: ' '.join(f.__doc__.split()) for fs in SCENARIOS.values() for f in fs}
 
 
